@@ -20,6 +20,15 @@ TRUSTED = [
     "strace fault injection (-e inject=write:error=EIO:when=k -P <fraction>._index, sealing goroutine locked to one OS "
     "thread; the strace log must show the injection, otherwise the run is discarded) for the single transient write "
     "failure inside the real fm.seal",
+    "hand-written model props/C08/coq/ModelPool.v of disk.BlocksWriter.WriteBlock as the steps Acquire / compress into the "
+    "pooled buffer / Seek / Write / deferred Release, interleaved with arbitrary steps of other bytespool users (acquire any "
+    "free or a fresh buffer, write into a held buffer, release); memory contents are symbolic (which block's compression, "
+    "whose poison): zstd and the size classes of bytespool are not modelled (any free buffer may be handed out - a superset "
+    "of what the size classes allow)",
+    "pool-pressure classes: GOMAXPROCS(1) in the store child makes sync.Pool hand the buffer released last to the next "
+    "Get; the other pool user runs inside Seek and on entry of Write of the io.WriteSeeker given to writeSealedFraction "
+    "(the scheduling points between compression and the write); the expected payload of a block is what the same child "
+    "wrote without a pool user, read back through disk.IndexReader",
 ]
 ASSUME = [
     "the SkipSortDocs setting does not change between restarts (a .sdocs left by an interrupted sorted seal next to "
@@ -33,6 +42,13 @@ ASSUME = [
     "writeTokenTableBlocks: size-dependent flushes) are not transcribed separately: a push is the sequence of its Write "
     "calls in the plan, tied to the generator models by the CShape cases (one LIDs write per generator block, three IDs "
     "writes per block) and exercised by failing every single write",
+    "other users of the shared bytespool write only into buffers they hold (acquired and not yet released), and the pool "
+    "never hands out a buffer somebody holds: hypotheses of C08_block_bytes_private, built into the machine of ModelPool.v; "
+    "the first is the obligation of every other call site (C10 / C19 prove it for theirs), the second is exercised by the "
+    "pool-pressure classes",
+    "Seal opens the index with os.Create itself, so the pool user cannot be placed inside the real fm.seal: the pool-pressure "
+    "classes run writeSealedFraction (everything Seal does between os.Create and syncRename) on the fraction's own ._index "
+    "file and perform fsync / rename / directory fsync / removal of .meta and .docs themselves before the restart",
 ]
 RULE = ("per corpus (random documents/tokens/bulks, SkipSortDocs on and off): the real rotate+seal in a child under "
         "strace; EVERY prefix of its operation sequence, torn variants of every write, power-loss variants wherever a "
@@ -48,8 +64,14 @@ RULE = ("per corpus (random documents/tokens/bulks, SkipSortDocs on and off): th
         "of its LIDs section (+ a sample of the others in the quick tier, all in the thorough tier) through "
         "writeSealedFraction, and through the real rotate + fm.seal in a child with one injected write(2) error: "
         "an error must come back / nothing published, .docs and .meta byte-identical. "
+        "pool pressure (every corpus below 5000 documents): writeSealedFraction in a child with GOMAXPROCS(1) while a second "
+        "pool user runs at the Seek and at the entry of the Write of every block - modes none / every block with the "
+        "sealer's own request size / the size classes below, equal and above / a random subset of blocks and sizes / buffers "
+        "held across blocks -; every block read back through disk.IndexReader must be the payload handed to WriteBlock and "
+        "the played schedule run through the model must give the same; one run per corpus is published and restarted: "
+        "loaded as sealed, every document fetched and found by every token query. "
         "non-trivial = crash inside the sequence (j>0) / fault or failing push on an existing write or call / limit "
-        "that bites; distinct by input")
+        "that bites / pool user wrote into at least one buffer; distinct by input")
 
 
 def harness_args(tier, seed, outdir):
